@@ -5,7 +5,7 @@
 
 package testscript
 
-//@ property C02: (*TestScript).parse, (*TestScript).Fatalf, (*TestScript).expand, expand$1, (*TestScript).Getenv, (*TestScript).Setenv, envvarname, (*TestScript).execBackground, (*TestScript).exec, (*TestScript).buildExecCmd, (*TestScript).cmdEnv
+//@ property C02: (*TestScript).parse, (*TestScript).Fatalf, (*TestScript).expand, expand$1, (*TestScript).Getenv, (*TestScript).Setenv, envvarname, (*TestScript).execBackground, (*TestScript).exec, (*TestScript).buildExecCmd, (*TestScript).cmdEnv, (*TestScript).run, (*TestScript).runLine
 //@ bounded C02: TestVerifBoundedTokenizer
 
 
@@ -375,19 +375,27 @@ package testscript
 //@   ensures ts.envMap != nil
 //@   ensures ts.archive == old(ts.archive) && ts.scriptUpdates == old(ts.scriptUpdates)
 //@   ensures forall K {at(ts.background,K)} :: lo(ts.background) <= K && K < hi(ts.background) ==> at(ts.background,K).cmd != nil
-//@   at call (*testscript.TestScript).callBuiltinCmd#1: requires cmd != nil
+//@   at call (*testscript.TestScript).parse#1: requires sameStr(line, my_line)
+//@   at call (*testscript.TestScript).callBuiltinCmd#1: requires cmd != nil && (scriptCmds[args[0]] != nil ==> cmd == scriptCmds[args[0]])
 //@   at call (*testscript.TestScript).condition#1: requires want == !(len(TrimSpace(mkseq(arrof(at(args, lo(args)-1)), lo(at(args, lo(args)-1))+1, hi(at(args, lo(args)-1))-1))) >= 1 && at(TrimSpace(mkseq(arrof(at(args, lo(args)-1)), lo(at(args, lo(args)-1))+1, hi(at(args, lo(args)-1))-1)), lo(TrimSpace(mkseq(arrof(at(args, lo(args)-1)), lo(at(args, lo(args)-1))+1, hi(at(args, lo(args)-1))-1)))) == '!')
 //@   loop 1: invariant len(args) >= 1
 
 // run: no line is run after a failure unless ContinueOnError; nothing is run after
 // stop; PASS is logged only for a run that neither failed nor stopped; run returns
 // normally only if no line failed (otherwise FailNow, which does not return).
+// (run hands every line of the script to runLine whole: from the start of the line to the byte
+// before its newline, or to the end of the script)
+//@ ghost var gLineLo Int
+//@ ghost var gScriptHi Int
+//@ ghost var gScriptArr (Array Int Int)
 //@ func (*TestScript).run
 //@   requires ts != nil && ts.scriptFiles != nil && !ts.stopped && ts.scriptUpdates != nil && len(ts.background) == 0
 //@   modifies F_*, H_*, fs*, fd*, M*, g*, failBudget, clock
 //@   callee rewind(): pure
 //@   callee markTime(): modifies F_S_testscript_TestScript_start
 //@   at call (*testscript.TestScript).runLine#1: requires (!failed || ts.params.ContinueOnError) && !ts.stopped
+//@   at call strings.Index#1: ghost gLineLo = lo(s); gScriptHi = hi(s); gScriptArr = arrof(s)
+//@   at call (*testscript.TestScript).runLine#1: requires arrof(line) == gScriptArr && lo(line) == gLineLo && (hi(line) == gScriptHi || at(line, hi(line)) == '\n') && forall Q {at(line,Q)} :: lo(line) <= Q && Q < hi(line) ==> at(line,Q) != '\n'
 //@   at call fmt.Fprintf#3: requires !failed && !ts.stopped
 //@   at call (*testscript.TestScript).setup#1: requires deferIndex("run$3") == 0 && deferIndex("run$4") == 1
 //@   at call (*testscript.TestScript).runLine#1: requires deferIndex("run$3") == 0 && deferIndex("run$4") == 1 && deferIndex("(*testscript.TestScript).applyScriptUpdates") == 2
@@ -436,6 +444,7 @@ package testscript
 
 // ---- C04: isolation and clean-up ----
 //@ bounded C04: TestVerifBoundedWaitOne
+//@ bounded C01: TestVerifBoundedWaitVerdict
 //@ property C04: (*TestScript).setup, writeFile, (*TestScript).run, run$3, (*TestScript).waitBackground, (*TestScript).cmdExec, cmdExec$1, waitOrStop, (*TestScript).exec, (*TestScript).execBackground, (*TestScript).Defer, Defer$1, RunT, RunT$1, RunT$1$2, removeAll
 
 // Defer: the new chain runs f first and the old chain afterwards, and the old chain is
@@ -686,6 +695,7 @@ package testscript
 //@   at call (github.com/rogpeppe/go-internal/testscript.T).Run#1: ghost_after seenRunNames[sid(name)] = true
 //@   at call context.Background#1: ghost seenRunNames = emptySet()
 //@   loop 2: invariant names != nil && forall k int {seenRunNames[k]} :: seenRunNames[k] ==> mapkeys(names)[k] && mapvals(names)[k]
+//@   loop 2: invariant -1 <= rangeindex && (rangeindex == -1 ==> refCount == len(rangeslice))
 //@   loop 3: invariant names != nil && forall k int {seenRunNames[k]} :: seenRunNames[k] ==> mapkeys(names)[k] && mapvals(names)[k]
 
 // RunMain (C01: an exec'd command's exit status decides the verdict of the exec line):
